@@ -77,7 +77,8 @@ def run(params, chooser, memo=None):
             return {'redirect': [code, 'http://[bad']}
         raise KeyError(ans)
 
-    argv = ['http://a.test' + START, '--no-robots', '--delete-after', '--waitretry', '0',
+    argv = ['http://a.test' + START] + ([] if params.get('robots') else ['--no-robots']) + [
+            '--delete-after', '--waitretry', '0',
             '--max-redirect', str(mr), '--tries', str(tries), '--http-user', 'u',
             '--http-password', 'p']
     import wpull.database.wrap as wrap
@@ -150,10 +151,19 @@ def judge(params, out, events):
                             % v['url'])
             else:
                 return 'request issued after a final answer %s within one visit' % prev
-        if follow > mr:
+        robots_reqs = [r for r in reqs if r[1] == '/robots.txt' or
+                       (params.get('robots') and reqs and reqs[0][1] == '/robots.txt'
+                        and r is not reqs[-1] and False)]
+        if params.get('robots'):
+            # the robots.txt fetch is a redirect-following session of its own inside the
+            # visit: the bound applies to each of the two sessions
+            limit_f, limit_n = 2 * mr, 4 * (mr + 1)
+        else:
+            limit_f, limit_n = mr, 2 * (mr + 1)
+        if follow > limit_f:
             return ('%d redirect follow-ups in one visit, limit is %d (answers %s)'
-                    % (follow, mr, [r[2] for r in reqs]))
-        if len(reqs) > 2 * (mr + 1):
+                    % (follow, limit_f, [r[2] for r in reqs]))
+        if len(reqs) > limit_n:
             return '%d requests in one visit (limit %d redirects)' % (len(reqs), mr)
     for u, n in per_url.items():
         if n > tries:
@@ -181,6 +191,12 @@ def jobs(tier, seed):
         js.append(dict(params=dict(max_redirect=20, tries=20, depth=0, always=ans,
                                    horizon=150000), prefix=[]))
         js.append(dict(params=dict(max_redirect=3, tries=4, depth=0, always=ans), prefix=[]))
+    # robots checking on: the adversarial answers also hit /robots.txt
+    for ans in ('s500', 'close', 'r301same', 's401', 'r307prev', 'r303noloc'):
+        js.append(dict(params=dict(max_redirect=2, tries=3, depth=0, always=ans, robots=True),
+                       prefix=[]))
+    js.append(dict(params=dict(max_redirect=1, tries=2, depth=5 if tier == 'quick' else 7,
+                               robots=True), prefix=[]))
     if seed:
         k = seed % len(js)
         js = js[k:] + js[:k]
